@@ -211,15 +211,27 @@ func guardsIntact(buf []byte, n int) bool {
 }
 
 // evaluate applies the property to one case.
-func evaluate(c Case) (*vlib.Failure, Stats) {
+func evaluate(c Case) (*vlib.Failure, Stats) { return evaluateWith(c, nil, true) }
+
+// evaluateWith: reuse is an analyzer built earlier from the same spec (the fuzz target keeps one
+// per subject; a stateful analyzer would show as nondeterminism), fresh tells whether the
+// "freshly constructed analyzer" clause is judged on this case.
+func evaluateWith(c Case, reuse *analysis.Analyzer, fresh bool) (*vlib.Failure, Stats) {
 	var st Stats
 	st.NonASCII, st.InvalidUTF = classifyBytes(c.Input)
 	sub := c.Spec.subject()
-	a1, err := build(c.Spec)
-	if err != nil {
-		return vlib.Failf("harness-bad-spec", "%v", err), st
+	a1 := reuse
+	if a1 == nil {
+		var err error
+		a1, err = build(c.Spec)
+		if err != nil {
+			return vlib.Failf("harness-bad-spec", "%v", err), st
+		}
 	}
-	a2, _ := build(c.Spec)
+	a2 := a1
+	if fresh {
+		a2, _ = build(c.Spec)
+	}
 	orig := append([]byte(nil), c.Input...)
 
 	var r1, r2, r3, r4 []Tok
@@ -228,10 +240,12 @@ func evaluate(c Case) (*vlib.Failure, Stats) {
 	f := vlib.Watchdog("analyze", 10*time.Second, func() *vlib.Failure {
 		// the text the tokenizer sees: the analyzer's own char filters, fresh instances
 		seen = append([]byte(nil), orig...)
-		if a3, _ := build(c.Spec); a3 != nil {
-			for _, cf := range a3.CharFilters {
-				seen = cf.Filter(seen)
-			}
+		a3 := a1
+		if fresh {
+			a3, _ = build(c.Spec)
+		}
+		for _, cf := range a3.CharFilters {
+			seen = cf.Filter(seen)
 		}
 		seen = append([]byte(nil), seen...)
 		// run 1: exact-capacity copy
@@ -295,6 +309,28 @@ func evaluate(c Case) (*vlib.Failure, Stats) {
 			}
 		}
 	}
+	if c.Spec.Kind == "filter" && removalFilter(c.Spec.Filters[0].Name) {
+		// a filter that only removes tokens must leave the survivors at their positions: the
+		// increments of the removed tokens are carried over (this is what makes "non-negative
+		// position increments" meaningful for the positions TokenFrequency accumulates)
+		base := c.Spec
+		base.Filters = nil
+		base.Kind = "pipeline"
+		var r0 []Tok
+		if f := vlib.Watchdog("analyze", 10*time.Second, func() *vlib.Failure {
+			a0, err := build(base)
+			if err != nil {
+				return vlib.Failf("harness-bad-spec", "%v", err)
+			}
+			r0 = snapshot(a0.Analyze(append([]byte(nil), orig...)))
+			return nil
+		}); f != nil {
+			return refine(f), st
+		}
+		if f := positionsPreserved(sub, r0, r1); f != nil {
+			return f, st
+		}
+	}
 	if c.Spec.sliceJudged() {
 		for i, t := range r1 {
 			if t.Term != string(seen[t.Start:t.End]) {
@@ -309,6 +345,32 @@ func evaluate(c Case) (*vlib.Failure, Stats) {
 		}
 	}
 	return nil, st
+}
+
+func removalFilter(name string) bool {
+	return name == "stop" || name == "length" || name == "unique" || strings.HasPrefix(name, "stop_")
+}
+
+// positionsPreserved: out must be a subsequence of in (same term and offsets) and every survivor
+// keeps its absolute position (sum of increments).
+func positionsPreserved(sub string, in, out []Tok) *vlib.Failure {
+	j, posIn, posOut := 0, 0, 0
+	for i, o := range out {
+		posOut += o.Incr
+		found := false
+		for j < len(in) && !found {
+			posIn += in[j].Incr
+			found = in[j].Term == o.Term && in[j].Start == o.Start && in[j].End == o.End
+			j++
+		}
+		if !found {
+			return vlib.Failf("removal-filter-invents-token@"+sub, "%s: output token %d %v is not a token of the input stream (in order)", sub, i, o)
+		}
+		if posIn != posOut {
+			return vlib.Failf("position-shift@"+sub, "%s: token %d %v stood at position %d before the filter and stands at %d after it (increments of removed tokens lost)", sub, i, o, posIn, posOut)
+		}
+	}
+	return nil
 }
 
 func classifyBytes(b []byte) (nonASCII, invalid bool) {
